@@ -18,6 +18,8 @@ inductive Atom where
   | int (i : Int)
   | str (s : String)
   | opaque (repr : String)
+  /-- a `torch.device(type, index)` object -/
+  | dev (type : String) (index : Option Nat)
   deriving DecidableEq, Repr, Inhabited
 
 inductive Tree where
@@ -130,6 +132,12 @@ def validateDevice (env : Env) (v : Tree) : Except Err Atom :=
   | .leaf (.bool b) =>       -- isinstance(True, int)
       if env.cuda then finishCuda env (some (if b then 1 else 0))
       else .error .runtimeError
+  | .leaf (.dev t idx) =>    -- a torch.device object goes straight to the `dev.type` dispatch
+      if t = "cuda" then
+        if env.cuda then finishCuda env idx else .error .runtimeError
+      else if t = "mps" then finishMps env
+      else if t = "cpu" then .ok (.str "cpu")
+      else .error .valueError
   | _ => .error .typeError
 
 /-- `check_key_val(key, val)`: only the key `device` is special (`aliases` and
@@ -254,6 +262,7 @@ def atomTruthy : Atom → Bool
   | .int i => i != 0
   | .str s => s != ""
   | .opaque r => r != "[]" && r != "0.0"
+  | .dev _ _ => true
 
 def atomNum : Atom → Option Int
   | .bool b => some (if b then 1 else 0)
